@@ -243,6 +243,17 @@ def step (w : World) (line : String) : World × String :=
            dns := if dns == "-" then [] else (dns.splitOn ",").map unhxD,
            shards := List.replicate nsh sh, regEpoch := w.regEpoch }, "world ok")
     | _ => (w, "badop")
+  else if cmd == "selfmeta" then
+    match rest with
+    | [s, onoff] =>
+      if onoff != "on" && onoff != "off" then (w, "badop") else
+      match s.toNat? with
+      | some si =>
+        (match w.shards[si]? with
+         | some sh => ({ w with shards := w.shards.set si { sh with selfMeta := onoff == "on" } }, "selfmeta ok")
+         | none => (w, "badop"))
+      | none => (w, "badop")
+    | _ => (w, "badop")
   else if cmd == "notifier" then
     match rest with
     | ["off"] => ({ w with regEpoch := none }, "notifier ok")
